@@ -17,10 +17,10 @@ def _minalign(hdr):
 
 SPEC = dict(
     harness=['h_tree.c'],
-    configs=lambda tier: [dict(name='packed'), dict(name='unpacked', cflags=['-DA_SIZE_POINTER=1']), dict(name='clang', libcc='clang'),
+    configs=lambda tier: [dict(name='packed'), dict(name='unpacked', cflags=['-DA_SIZE_POINTER=1']), dict(name='clang', libcc='clang'), dict(name='o2', libflavour='san-o2', libdrop=['-fno-strict-aliasing']),
                           dict(name='unpacked-uchar', cflags=['-DA_SIZE_POINTER=1', '-funsigned-char'])] +
                          [dict(name='minalign', cflags=['-fno-sanitize=alignment'], hflags=['-DVF_MINALIGN=%d' % n]) for n in _minalign('avl.h')],
-    parallel_configs=5,
+    parallel_configs=6,
     workers={'quick': 12, 'thorough': 16},
     level='exploration',
     rule='(1) every AVL shape reachable through the real library with <= N nodes (N=15 quick, 20 thorough) is enumerated by a fixpoint over '
